@@ -16,6 +16,7 @@ import CifModel.Lemmas.NumbLimbLink
 import CifModel.Lemmas.NumbLimbCarry
 import CifModel.Lemmas.NumbLimbRefine
 import CifModel.Lemmas.NumbLimbDigits
+import CifModel.Lemmas.NumbLimbFinish
 /-
   Property C10 — number text and double values convert with correct rounding.
 
@@ -411,16 +412,28 @@ theorem C10_limbs_round_in_limb (ds : List Nat) (r lsd roundPos : Nat) (hs : Sma
       pow10 roundPos * roundHalfEven (natOfLimbs ds) (pow10 roundPos * BBASE ^ (ds.length - (r + 1))) :=
   Lemmas.NumbLimbDigits.round_in_limb ds r lsd roundPos hs hz hr hp
 
-/-- the to_digits half of the limb refinement, NOT yet proved end-to-end (named partial): the pass theorems, the
-    rounding-over-limbs theorem and `C10_limbs_carry_loop` are its loop invariants; the shift phase
-    (`C10_limbs_digits_shift`), the rounding inside a limb (`C10_limbs_round_in_limb`) and the carry propagation
-    (`C10_limbs_carry_loop`) are proved; missing for `digFinish` are (1) `msd` of the shifted array =
-    `limbOfPlace (flog10Rat |d|)` (decides `""` against `"0"` when the value rounds to zero), (2) digit generation
-    (`limbDigits`, `countDigits`, truncation of `roundPos` characters) = `decDigits` of the printed number, (3) the
-    assembly (`10^-scale` = rounding unit / 10⁹^121, case `r < msd`).  The equality is evaluated on every `todig` request. -/
-def C10_limbs_refine_to_digits_full : Prop :=
-  ∀ (m : Nat) (e scale : Int) (l : List Nat), -308 ≤ scale → scale ≤ 321 → Model.NumbLimbs.toDigitsLimbs m e scale = some l →
-    l = toDigitsBig m e scale
+/-- **C10_limbs_refine_to_digits** (∀ doubles `±m·2^e` with `m < 2^53` and `−1074 ≤ e ≤ 1024` — every finite double —,
+    ∀ scales): the base-10⁹ limb level of to_digits — the 53-bit fraction stored limb by limb, the binary exponent
+    applied by shift passes of ≤ 28 bits, rounding inside a limb at the decimal position of the scale (`p10`, check
+    value, `round_it`/`compare_half`/`is_zero`), the carry propagation "iteratively, if necessary", the digit generation
+    (first limb with its own digit count, nine digits for each following limb, truncation of the positions below the
+    rounding position) — returns exactly the digit string of the exact-arithmetic level `toDigitsBig`, including its
+    `""`/`"0"` distinction for values that round to zero; `none` = the scale is outside what `cif_value_init_numb`
+    admits or the array would be overrun.  Proof: `digShift_spec` (array = |d|), `digShift_tight` and `msd_limbOfPlace`
+    (`msd` = limb of the most significant decimal place), `unit_cross` (rounding unit = 10^-scale), `round_in_limb`,
+    `carryLoop_printed`, `gen_spec`/`digits_of_limbs`/`take_numeral` (`Lemmas/NumbLimb{Digits,Tight,Msd,Gen,Finish}.lean`). -/
+theorem C10_limbs_refine_to_digits (m : Nat) (e scale : Int) (l : List Nat) (hb : bitLen m ≤ 53) (he1 : -1074 ≤ e)
+    (he2 : e ≤ 1024) (h : Model.NumbLimbs.toDigitsLimbs m e scale = some l) : l = toDigitsBig m e scale :=
+  Lemmas.NumbLimbFinish.toDigitsLimbs_refines m e scale l hb he1 he2 h
+
+/-- **C10_limbs_refine_big**: both halves of the limb-level refinement -/
+theorem C10_limbs_refine_big :
+    (∀ (ds : List Nat) (scale : Int) (d : Dbl), (∀ x ∈ ds, x ≤ 9) → Model.NumbLimbs.toDoubleLimbs ds scale = some d →
+      d = toDoubleBig ds scale) ∧
+    (∀ (m : Nat) (e scale : Int) (l : List Nat), bitLen m ≤ 53 → -1074 ≤ e → e ≤ 1024 →
+      Model.NumbLimbs.toDigitsLimbs m e scale = some l → l = toDigitsBig m e scale) :=
+  ⟨fun ds scale d hd h => C10_limbs_refine_to_double ds scale d hd h,
+   fun m e scale l hb h1 h2 h => C10_limbs_refine_to_digits m e scale l hb h1 h2 h⟩
 
 /-! ### non-vacuity and regression examples -/
 
